@@ -333,6 +333,7 @@ def builtKeys : List CKey := [.objFn, .gradFn, .bounds, .scipyConstraints]
 /-- arguments of the `minimize` call that depend on the glue's decisions -/
 structure MinArgs where
   method  : String
+  x0      : Option (List Rat)    -- x0=…: the caller's start point (`none` = `_compute_initial_point(variables)`)
   useGrad : Bool                 -- jac=gradient unless derivative-free
   useHess : Bool                 -- hess=hess_fn
   bounds  : Option (List Bnd)    -- bounds=… only for BOUNDS_METHODS
@@ -473,6 +474,7 @@ structure Opts where
   strict     : Bool := false
   useHessian : Bool := true
   tol        : Option Rat := none
+  x0         : Option (List Rat) := none   -- user-supplied start point (passed through unchanged, also to the retry)
 
 /-- everything the glue does not compute itself -/
 structure World where
@@ -541,8 +543,9 @@ def ensureHess (w : World) (pass : Nat) (o : Opts) (method : String) : M Bool :=
         pure true
   else pure false
 
-def minArgs (p : Problem) (method : String) (useHess : Bool) : MinArgs :=
+def minArgs (p : Problem) (o : Opts) (method : String) (useHess : Bool) : MinArgs :=
   { method := method
+    x0 := o.x0
     useGrad := !Generated.derivativeFreeMethods.contains method
     useHess := useHess
     bounds := if !p.vars.isEmpty && Generated.boundsMethods.contains method then some (p.vars.map PVar.bnd) else none
@@ -581,7 +584,7 @@ def scipyPass (w : World) (p : Problem) (o : Opts) (pass : Nat) (method : String
     ensureCache w pass p
     useCache
     let useHess ← ensureHess w pass o method
-    let r? ← minimizeBlock w pass (minArgs p method useHess)
+    let r? ← minimizeBlock w pass (minArgs p o method useHess)
     match r? with
     | none => pure (some failedSolution)
     | some r =>
@@ -727,7 +730,7 @@ def passPure (w : World) (p : Problem) (o : Opts) (pass : Nat) (method : String)
     match guardPure "SciPy" o.strict p.vars with
     | (some e, evs) => (.exc e, evs)
     | (none, warn) =>
-      let evs := warn ++ [.minimizeCall (minArgs p method (hessFlag o method))]
+      let evs := warn ++ [.minimizeCall (minArgs p o method (hessFlag o method))]
       match postPass (p.cfg o) method (if pass == 0 then w.r1 else w.r2) with
       | .raised e => (.exc e, evs)
       | .done s => (.ok (some s), evs)
